@@ -178,8 +178,13 @@ def analyse_part(prop, suite, tie, stats, failures, max_failures=12):
                              "note": "stream lengths differ: ops=%d impl=%d model=%d" % (len(ops), len(io), len(mo))})
 
 
-def shrink_failure(prop, suite, f):
+def shrink_failure(prop, suite, f, deadline=None):
+    """minimise a failing case; after `deadline` (shared by all failures of a check: a case of a session or
+    muxer suite takes seconds to re-run) the case is reported as far as it got"""
     if suite.kind == "monitor" or "note" in f or suite.stateless or not suite.should_shrink(f):
+        return f
+    if deadline is not None and time.time() > deadline:
+        f["note"] = "not minimised (the time set aside for shrinking was used up by earlier failures)"
         return f
     def fails(ops):
         io, mo = run_case(prop, suite, ops)
@@ -188,7 +193,7 @@ def shrink_failure(prop, suite, f):
         if not fails(f["ops"]):
             f["note"] = "does not reproduce when the case is run alone (state carried across cases?)"
             return f
-        ops = core.ddmin_case(f["ops"], fails)
+        ops = core.ddmin_case(f["ops"], fails, (lambda: time.time() > deadline) if deadline else None)
         io, mo = run_case(prop, suite, ops)
         k = differs(suite, ops, io, mo)
         g = {"suite": suite.name, "ops": ops, "impl": io, "model": mo, "k": k if k is not None else 0,
@@ -303,6 +308,7 @@ def run_check(cfg, tier, seed):
 
         # ---- decide
         known = [k for k in core.load_known() if k.get("property") == pid and k.get("status") == "known"]
+        shrink_deadline = time.time() + (150 if tier == "quick" else 1200)
         seen_sigs = []
         suites_by_name = {s.name: s for s in cfg.suites}
         pre_seen = []
@@ -315,7 +321,7 @@ def run_check(cfg, tier, seed):
                 pre_seen.append(ps)
             if len(seen_sigs) >= 12 or len(violations) >= 3:
                 break
-            g = shrink_failure(pid, suite, f)
+            g = shrink_failure(pid, suite, f, shrink_deadline)
             k = g["k"]
             sig = suite.signature(g["ops"], g["impl"], g["model"], k)
             sig["suite"] = suite.name
